@@ -329,8 +329,8 @@ def loop_vars(an, b, count):
             if x[0] == 'agg' and x[2] and x[2].endswith('ops::Range'):
                 f = dict(x[4])
                 if const_val(f['start']) == 0 and poly(f['end']) == count:
-                    out.add(('field', ct, '0', 'std::option::Option', 'Some'))
-                    out.add(('field', ct, '0', 'core::option::Option', 'Some'))
+                    out.add(nosite(('field', ct, '0', 'std::option::Option', 'Some')))
+                    out.add(nosite(('field', ct, '0', 'core::option::Option', 'Some')))
     return out
 
 
